@@ -77,7 +77,9 @@ def main():
             "mot de passe très sécurisé", "пароль", "密碼", "パスワード", "암호문",
             "ﬁancé №5", "Ω≈ç√∫˜µ≤≥÷", "ạ́b", "ṩ̣̇", "㌀㍿", "½ ² ℌ",
             # capitals, digits, punctuation: normalisation is not case folding
-            "Correct Horse Battery Staple", "PIN-2024-XYZ", "Ünïcödé Ǆ ﬁ Å", "ÀÉÎÕÜ ÇA VA"]
+            "Correct Horse Battery Staple", "PIN-2024-XYZ", "Ünïcödé Ǆ ﬁ Å", "ÀÉÎÕÜ ÇA VA",
+            # three- and four-byte sequences with the lead bytes E0 / ED / EF / F0 / F4 (range checks on the second byte)
+            "สวัสดี ก็ ำ", "café \U0001F600 \U0001D400bc", "\uD7A3 \uFB01 \uFFFD \U0010FFFD x", "\u0800\u0FFF\U00010000\U0003FFFD"]
     pw = []
     for s in pool:
         pw.append({
